@@ -295,3 +295,255 @@ Section Routes.
     replace (L2 * (ZZ * (1 * v' * (1 * v')))) with ((L2 * ZZ) * (v' * v')) by ring. lia.
   Qed.
 End Routes.
+
+(* ------------------------------------------------------------------ the lower bound *)
+Lemma hd2_sym : forall p q, hd2 p q = hd2 q p.
+Proof. intros [[x y] w] [[x' y'] w']. unfold hd2, sq. f_equal; ring. Qed.
+
+Lemma opposite_false : forall x y, opposite x y = false -> (0 <= x /\ 0 <= y) \/ (x <= 0 /\ y <= 0).
+Proof.
+  intros x y H. unfold opposite in H. apply orb_false_iff in H. destruct H as [H1 H2].
+  apply andb_false_iff in H1. apply andb_false_iff in H2. rewrite !Z.ltb_ge in H1, H2. lia.
+Qed.
+
+(* c, d not on strictly opposite sides of the line ab: some end/segment distance is below the distance of any two points *)
+Lemma half : forall a b c d n w m v, 0 < w -> 0 <= n <= w -> 0 < v -> 0 <= m <= v ->
+  opposite (orient a b c) (orient a b d) = false ->
+  let T := hd2 (hlerp a b n w) (hlerp c d m v) in
+  rle (fst (dist2_pt_seg c a b)) T = true \/ rle (fst (dist2_pt_seg d a b)) T = true \/
+  rle (fst (dist2_pt_seg a c d)) T = true \/ rle (fst (dist2_pt_seg b c d)) T = true.
+Proof.
+  intros a b c d n w m v Hw Hn Hv Hm Ho T.
+  set (Tq := (v - m) * dotp a b c + m * dotp a b d).
+  assert (DT : 0 < rd T) by (apply den_PQ; assumption).
+  destruct (Z_le_gt_dec Tq 0) as [H1 | H1].
+  - right; right; left.
+    pose proof (pt_seg_ok a c d) as [_ K]. pose proof (pt_seg_min a c d m v Hv Hm) as M.
+    apply (rle_trans _ (pd2 a (hlerp c d m v))); [exact K | rewrite pd2_Q_den; apply sq_pos; lia | exact DT | exact M | ].
+    apply route_a; assumption.
+  - destruct (Z_le_gt_dec (v * d2 a b) Tq) as [H2 | H2].
+    + right; right; right.
+      pose proof (pt_seg_ok b c d) as [_ K]. pose proof (pt_seg_min b c d m v Hv Hm) as M.
+      apply (rle_trans _ (pd2 b (hlerp c d m v))); [exact K | rewrite pd2_Q_den; apply sq_pos; lia | exact DT | exact M | ].
+      apply route_b; assumption.
+    + assert (HL : 0 < d2 a b) by (pose proof (d2_nonneg a b); nia).
+      destruct (core (d2 a b) (dotp a b c) (orient a b c) (dotp a b d) (orient a b d) m v Tq
+                     ((v - m) * orient a b c + m * orient a b d) HL Hv Hm (opposite_false _ _ Ho) eq_refl eq_refl)
+        as [R | [R | [R | R]]]; [lia | | | | ].
+      * left. apply route_in; assumption.
+      * right; left. apply route_in; assumption.
+      * right; right; left. apply route_over_a; assumption.
+      * right; right; right. apply route_over_b; assumption.
+Qed.
+
+Lemma seg_seg_value : forall a b c d, proper_cross a b c d = false ->
+  let r := fst (dist2_seg_seg a b c d) in
+  rle r (fst (dist2_pt_seg c a b)) = true /\ rle r (fst (dist2_pt_seg d a b)) = true /\
+  rle r (fst (dist2_pt_seg a c d)) = true /\ rle r (fst (dist2_pt_seg b c d)) = true /\ 0 < rd r /\ 0 <= rn r.
+Proof.
+  intros a b c d Hp. unfold dist2_seg_seg. rewrite Hp. cbv zeta.
+  set (c1 := (fst (dist2_pt_seg c a b), (snd (dist2_pt_seg c a b), hp c))).
+  set (c2 := (fst (dist2_pt_seg d a b), (snd (dist2_pt_seg d a b), hp d))).
+  set (c3 := (fst (dist2_pt_seg a c d), (hp a, snd (dist2_pt_seg a c d)))).
+  set (c4 := (fst (dist2_pt_seg b c d), (hp b, snd (dist2_pt_seg b c d)))).
+  pose proof (pt_seg_ok c a b) as [N1 K1]. pose proof (pt_seg_ok d a b) as [N2 K2].
+  pose proof (pt_seg_ok a c d) as [N3 K3]. pose proof (pt_seg_ok b c d) as [N4 K4].
+  assert (D34 : 0 < rd (fst (better c3 c4)) /\ 0 <= rn (fst (better c3 c4))) by (destruct (better_in c3 c4) as [-> | ->]; cbn [fst]; auto).
+  assert (D234 : 0 < rd (fst (better c2 (better c3 c4))) /\ 0 <= rn (fst (better c2 (better c3 c4))))
+    by (destruct (better_in c2 (better c3 c4)) as [-> | ->]; cbn [fst]; auto).
+  assert (D1234 : 0 < rd (fst (better c1 (better c2 (better c3 c4)))) /\ 0 <= rn (fst (better c1 (better c2 (better c3 c4)))))
+    by (destruct (better_in c1 (better c2 (better c3 c4))) as [-> | ->]; cbn [fst]; auto).
+  destruct D34 as [D34 _], D234 as [D234 _]. destruct D1234 as [D1234 N1234].
+  assert (K1' : 0 < rd (fst c1)) by exact K1. assert (K2' : 0 < rd (fst c2)) by exact K2.
+  assert (K3' : 0 < rd (fst c3)) by exact K3. assert (K4' : 0 < rd (fst c4)) by exact K4.
+  pose proof (better_l c1 (better c2 (better c3 c4))) as A1. pose proof (better_r c1 (better c2 (better c3 c4))) as A2.
+  pose proof (better_l c2 (better c3 c4)) as B1. pose proof (better_r c2 (better c3 c4)) as B2.
+  pose proof (better_l c3 c4) as C1. pose proof (better_r c3 c4) as C2.
+  assert (E2 : rle (fst (better c1 (better c2 (better c3 c4)))) (fst c2) = true).
+  { apply (rle_trans _ (fst (better c2 (better c3 c4)))); assumption. }
+  assert (E34 : rle (fst (better c1 (better c2 (better c3 c4)))) (fst (better c3 c4)) = true).
+  { apply (rle_trans _ (fst (better c2 (better c3 c4)))); assumption. }
+  assert (E3 : rle (fst (better c1 (better c2 (better c3 c4)))) (fst c3) = true)
+    by (apply (rle_trans _ (fst (better c3 c4))); assumption).
+  assert (E4 : rle (fst (better c1 (better c2 (better c3 c4)))) (fst c4) = true)
+    by (apply (rle_trans _ (fst (better c3 c4))); assumption).
+  exact (conj A1 (conj E2 (conj E3 (conj E4 (conj D1234 N1234))))).
+Qed.
+
+(* the value is a lower bound for the squared distance of ANY point a + (n/w)(b-a) of ab and ANY point c + (m/v)(d-c) of cd *)
+Theorem dist2_seg_seg_lower : forall a b c d n w m v, 0 < w -> 0 <= n <= w -> 0 < v -> 0 <= m <= v ->
+  rle (fst (dist2_seg_seg a b c d)) (hd2 (hlerp a b n w) (hlerp c d m v)) = true.
+Proof.
+  intros a b c d n w m v Hw Hn Hv Hm.
+  destruct (proper_cross a b c d) eqn:Hp.
+  - unfold dist2_seg_seg. rewrite Hp. cbn [fst]. apply rle_iff. cbn [rn rd].
+    pose proof (hd2_ok (hlerp a b n w) (hlerp c d m v)). lia.
+  - destruct (seg_seg_value a b c d Hp) as [V1 [V2 [V3 [V4 [VD VN]]]]].
+    set (T := hd2 (hlerp a b n w) (hlerp c d m v)).
+    assert (DT : 0 < rd T) by (apply den_PQ; assumption).
+    pose proof (pt_seg_ok c a b) as [_ K1]. pose proof (pt_seg_ok d a b) as [_ K2].
+    pose proof (pt_seg_ok a c d) as [_ K3]. pose proof (pt_seg_ok b c d) as [_ K4].
+    unfold proper_cross in Hp. apply andb_false_iff in Hp. destruct Hp as [Ho | Ho].
+    + destruct (half a b c d n w m v Hw Hn Hv Hm Ho) as [H | [H | [H | H]]]; fold T in H.
+      * apply (rle_trans _ (fst (dist2_pt_seg c a b))); assumption.
+      * apply (rle_trans _ (fst (dist2_pt_seg d a b))); assumption.
+      * apply (rle_trans _ (fst (dist2_pt_seg a c d))); assumption.
+      * apply (rle_trans _ (fst (dist2_pt_seg b c d))); assumption.
+    + destruct (half c d a b m v n w Hv Hm Hw Hn Ho) as [H | [H | [H | H]]];
+        rewrite (hd2_sym (hlerp c d m v) (hlerp a b n w)) in H; fold T in H.
+      * apply (rle_trans _ (fst (dist2_pt_seg a c d))); assumption.
+      * apply (rle_trans _ (fst (dist2_pt_seg b c d))); assumption.
+      * apply (rle_trans _ (fst (dist2_pt_seg c a b))); assumption.
+      * apply (rle_trans _ (fst (dist2_pt_seg d a b))); assumption.
+Qed.
+
+(* ------------------------------------------------------------------ points given by membership (hon) instead of a parameter *)
+Lemma hon_w : forall x a b, hon x a b -> 0 < snd x.
+Proof. intros [[X Y] W] a b [H _]. exact H. Qed.
+
+(* a point on ab has the same squared distances as the corresponding a + (n/m)(b-a) *)
+Lemma hd2_hon_l : forall X Y W a b n m y, 0 < W -> 0 < m -> 0 < snd y ->
+  m * X = W * ((m - n) * fst a + n * fst b) -> m * Y = W * ((m - n) * snd a + n * snd b) ->
+  req (hd2 (X, Y, W) y) (hd2 (hlerp a b n m) y).
+Proof.
+  intros X Y W a b n m [[x' y'] w'] HW Hm Hw' E1 E2. unfold hlerp.
+  set (Lx := (m - n) * fst a + n * fst b) in *. set (Ly := (m - n) * snd a + n * snd b) in *.
+  unfold req, hd2; cbn [rn rd].
+  assert (F1 : m * (X * w' - x' * W) = W * (Lx * w' - x' * m)) by (replace (m * (X * w' - x' * W)) with ((m * X) * w' - m * x' * W) by ring; rewrite E1; ring).
+  assert (F2 : m * (Y * w' - y' * W) = W * (Ly * w' - y' * m)) by (replace (m * (Y * w' - y' * W)) with ((m * Y) * w' - m * y' * W) by ring; rewrite E2; ring).
+  unfold sq.
+  replace (((X * w' - x' * W) * (X * w' - x' * W) + (Y * w' - y' * W) * (Y * w' - y' * W)) * (m * w' * (m * w')))
+    with (((m * (X * w' - x' * W)) * (m * (X * w' - x' * W)) + (m * (Y * w' - y' * W)) * (m * (Y * w' - y' * W))) * (w' * w')) by ring.
+  rewrite F1, F2. ring.
+Qed.
+
+Lemma rle_req_r : forall r s t, 0 < rd r -> 0 < rd s -> 0 < rd t -> rle r s = true -> req s t -> rle r t = true.
+Proof. intros r s t Hr Hs Ht H E. apply (rle_trans r s t); auto. apply req_rle; exact E. Qed.
+Lemma hd2_den : forall p q, 0 < snd p -> 0 < snd q -> 0 < rd (hd2 p q).
+Proof. intros [[x y] w] [[x' y'] w'] H1 H2; cbn [snd] in *. unfold hd2; cbn [rd]. apply sq_pos. nia. Qed.
+
+Theorem dist2_seg_seg_lower_on : forall a b c d x y, hon x a b -> hon y c d ->
+  rle (fst (dist2_seg_seg a b c d)) (hd2 x y) = true.
+Proof.
+  intros a b c d [[X Y] W] [[X' Y'] W'] [HW [n [m [Hm [Hn [E1 E2]]]]]] [HW' [n' [m' [Hm' [Hn' [E1' E2']]]]]].
+  pose proof (dist2_seg_seg_lower a b c d n m n' m' Hm Hn Hm' Hn') as L.
+  assert (DV : 0 < rd (fst (dist2_seg_seg a b c d))).
+  { destruct (proper_cross a b c d) eqn:Hp.
+    - unfold dist2_seg_seg; rewrite Hp; cbn; lia.
+    - apply (seg_seg_value a b c d Hp). }
+  (* replace the second point, then the first *)
+  assert (Q1 : req (hd2 (hlerp a b n m) (hlerp c d n' m')) (hd2 (hlerp a b n m) (X', Y', W'))).
+  { rewrite (hd2_sym (hlerp a b n m) (hlerp c d n' m')), (hd2_sym (hlerp a b n m) (X', Y', W')).
+    apply req_sym. apply hd2_hon_l; cbn [snd hlerp]; auto. }
+  assert (Q2 : req (hd2 (hlerp a b n m) (X', Y', W')) (hd2 (X, Y, W) (X', Y', W'))).
+  { apply req_sym. apply hd2_hon_l; cbn [snd]; auto. }
+  apply (rle_req_r _ (hd2 (hlerp a b n m) (X', Y', W'))); try exact Q2; try exact DV; try (apply hd2_den; cbn [snd hlerp]; lia).
+  apply (rle_req_r _ (hd2 (hlerp a b n m) (hlerp c d n' m'))); try exact Q1; try exact DV; try exact L; try (apply hd2_den; cbn [snd hlerp]; lia).
+Qed.
+
+(* ------------------------------------------------------------------ attained *)
+Lemma opposite_cases : forall x y, opposite x y = true -> (0 < x /\ y < 0) \/ (x < 0 /\ 0 < y).
+Proof.
+  intros x y H. unfold opposite in H. apply orb_true_iff in H. destruct H as [H | H]; apply andb_true_iff in H; rewrite !Z.ltb_lt in H; lia.
+Qed.
+Lemma orient_diff : forall a b c d, orient a b c - orient a b d = - (orient c d a - orient c d b).
+Proof. intros [ax ay] [bx by_] [cx cy] [dx dy]. unfold orient; cbn [fst snd]. ring. Qed.
+
+Lemma cross_pt_on : forall a b c d, proper_cross a b c d = true ->
+  hon (cross_pt a b c d) a b /\ hon (cross_pt a b c d) c d.
+Proof.
+  intros a b c d H. unfold proper_cross in H. apply andb_true_iff in H. destruct H as [H1 H2].
+  apply opposite_cases in H1. apply opposite_cases in H2. pose proof (orient_diff a b c d) as OD.
+  unfold cross_pt.
+  set (o1 := orient a b c) in *. set (o2 := orient a b d) in *. set (o3 := orient c d a) in *. set (o4 := orient c d b) in *.
+  destruct (Z.ltb_spec 0 (o3 - o4)) as [HW | HW].
+  - split; [apply hon_lerp; lia|].
+    unfold hon, hlerp. split; [lia|]. exists (- o1), (o2 - o1). split; [lia|]. split; [lia|].
+    subst o1 o2 o3 o4. destruct a as [ax ay], b as [bx by_], c as [cx cy], d as [dx dy]. unfold orient in *; cbn [fst snd] in *. split; ring.
+  - split; [apply hon_lerp; lia|].
+    unfold hon, hlerp. split; [lia|]. exists o1, (o1 - o2). split; [lia|]. split; [lia|].
+    subst o1 o2 o3 o4. destruct a as [ax ay], b as [bx by_], c as [cx cy], d as [dx dy]. unfold orient in *; cbn [fst snd] in *. split; ring.
+Qed.
+
+Lemma hd2_self : forall x, rn (hd2 x x) = 0.
+Proof. intros [[X Y] W]. unfold hd2, sq; cbn [rn]. ring. Qed.
+
+Theorem dist2_seg_seg_attained : forall a b c d,
+  let v := fst (dist2_seg_seg a b c d) in let x := fst (snd (dist2_seg_seg a b c d)) in let y := snd (snd (dist2_seg_seg a b c d)) in
+  rat_ok v /\ hon x a b /\ hon y c d /\ req (hd2 x y) v.
+Proof.
+  intros a b c d. cbv zeta. destruct (proper_cross a b c d) eqn:Hp.
+  - unfold dist2_seg_seg. rewrite Hp. cbn [fst snd]. destruct (cross_pt_on a b c d Hp) as [O1 O2].
+    split; [split; cbn; lia|]. split; [exact O1|]. split; [exact O2|].
+    unfold req. rewrite hd2_self. cbn [rn rd]. ring.
+  - destruct (seg_seg_value a b c d Hp) as [_ [_ [_ [_ [VD VN]]]]].
+    split; [split; assumption|]. clear VD VN.
+    unfold dist2_seg_seg. rewrite Hp. cbv zeta.
+    set (c1 := (fst (dist2_pt_seg c a b), (snd (dist2_pt_seg c a b), hp c))).
+    set (c2 := (fst (dist2_pt_seg d a b), (snd (dist2_pt_seg d a b), hp d))).
+    set (c3 := (fst (dist2_pt_seg a c d), (hp a, snd (dist2_pt_seg a c d)))).
+    set (c4 := (fst (dist2_pt_seg b c d), (hp b, snd (dist2_pt_seg b c d)))).
+    assert (G : forall r, r = c1 \/ r = c2 \/ r = c3 \/ r = c4 -> hon (fst (snd r)) a b /\ hon (snd (snd r)) c d /\ req (hd2 (fst (snd r)) (snd (snd r))) (fst r)).
+    { intros r [-> | [-> | [-> | ->]]]; cbn [fst snd].
+      - split; [apply pt_seg_on|]. split; [apply hon_left|]. rewrite hd2_sym. apply pt_seg_att.
+      - split; [apply pt_seg_on|]. split; [apply hon_right|]. rewrite hd2_sym. apply pt_seg_att.
+      - split; [apply hon_left|]. split; [apply pt_seg_on|]. apply pt_seg_att.
+      - split; [apply hon_right|]. split; [apply pt_seg_on|]. apply pt_seg_att. }
+    apply G.
+    destruct (better_in c1 (better c2 (better c3 c4))) as [-> | ->]; [auto|].
+    destruct (better_in c2 (better c3 c4)) as [-> | ->]; [auto|].
+    destruct (better_in c3 c4) as [-> | ->]; auto.
+Qed.
+
+(* ------------------------------------------------------------------ symmetry, zero *)
+Theorem dist2_seg_seg_sym : forall a b c d, req (fst (dist2_seg_seg a b c d)) (fst (dist2_seg_seg c d a b)).
+Proof.
+  intros a b c d.
+  destruct (dist2_seg_seg_attained a b c d) as [[N1 D1] [O1 [O1' A1]]].
+  destruct (dist2_seg_seg_attained c d a b) as [[N2 D2] [O2 [O2' A2]]].
+  pose proof (dist2_seg_seg_lower_on a b c d _ _ O2' O2) as L1. rewrite hd2_sym in L1.
+  pose proof (dist2_seg_seg_lower_on c d a b _ _ O1' O1) as L2. rewrite hd2_sym in L2.
+  apply rle_antisym.
+  - apply (rle_req_r _ _ _ D1 (hd2_den _ _ (hon_w _ _ _ O2) (hon_w _ _ _ O2')) D2 L1 A2).
+  - apply (rle_req_r _ _ _ D2 (hd2_den _ _ (hon_w _ _ _ O1) (hon_w _ _ _ O1')) D1 L2 A1).
+Qed.
+
+(* equality of rational points *)
+Definition heq (x y : hpt) : Prop :=
+  let '(X, Y, W) := x in let '(X', Y', W') := y in X * W' = X' * W /\ Y * W' = Y' * W.
+Lemma hd2_zero : forall x y, rn (hd2 x y) = 0 -> heq x y.
+Proof.
+  intros [[X Y] W] [[X' Y'] W'] H. unfold hd2 in H; cbn [rn] in H. unfold heq.
+  pose proof (sq_nonneg (X * W' - X' * W)) as S1. pose proof (sq_nonneg (Y * W' - Y' * W)) as S2.
+  assert (E1 : sq (X * W' - X' * W) = 0) by lia. assert (E2 : sq (Y * W' - Y' * W) = 0) by lia.
+  unfold sq in E1, E2. apply Z.mul_eq_0 in E1. apply Z.mul_eq_0 in E2. lia.
+Qed.
+Lemma hon_heq : forall x y a b, heq x y -> 0 < snd x -> 0 < snd y -> hon x a b -> hon y a b.
+Proof.
+  intros [[X Y] W] [[X' Y'] W'] a b [E1 E2] HW HW' [_ [n [m [Hm [Hn [F1 F2]]]]]]. cbn [snd] in *.
+  unfold hon. split; [exact HW'|]. exists n, m. split; [exact Hm|]. split; [exact Hn|].
+  set (Lx := (m - n) * fst a + n * fst b) in *. set (Ly := (m - n) * snd a + n * snd b) in *.
+  split.
+  - apply (Z.mul_reg_l _ _ W); [lia|].
+    replace (W * (m * X')) with (m * (X' * W)) by ring. rewrite <- E1.
+    replace (m * (X * W')) with ((m * X) * W') by ring. rewrite F1. ring.
+  - apply (Z.mul_reg_l _ _ W); [lia|].
+    replace (W * (m * Y')) with (m * (Y' * W)) by ring. rewrite <- E2.
+    replace (m * (Y * W')) with ((m * Y) * W') by ring. rewrite F2. ring.
+Qed.
+
+(* the model distance of two segments is 0 exactly when they have a point in common *)
+Theorem dist2_seg_seg_zero_iff : forall a b c d,
+  rn (fst (dist2_seg_seg a b c d)) = 0 <-> exists x, hon x a b /\ hon x c d.
+Proof.
+  intros a b c d. split.
+  - intro H0. destruct (dist2_seg_seg_attained a b c d) as [[N1 D1] [O1 [O1' A1]]].
+    exists (snd (snd (dist2_seg_seg a b c d))). split; [|exact O1'].
+    unfold req in A1. rewrite H0 in A1.
+    assert (Z0' : rn (hd2 (fst (snd (dist2_seg_seg a b c d))) (snd (snd (dist2_seg_seg a b c d)))) = 0) by nia.
+    apply (hon_heq _ _ a b (hd2_zero _ _ Z0') (hon_w _ _ _ O1) (hon_w _ _ _ O1') O1).
+  - intros [x [O1 O2]].
+    pose proof (dist2_seg_seg_lower_on a b c d x x O1 O2) as L. apply rle_iff in L. rewrite hd2_self in L.
+    destruct (dist2_seg_seg_attained a b c d) as [[N1 D1] _].
+    pose proof (hd2_den x x (hon_w _ _ _ O1) (hon_w _ _ _ O1)). nia.
+Qed.
